@@ -39,11 +39,32 @@ Print Assumptions C06_fifo_inv.
 Theorem C06_file_refines_sync :
   forall (fx : bool) (cap : N) (progs : list (list tw_call)) (s : tw_state),
   tw_wf cap progs -> tw_wf_close progs -> tw_reach fx cap progs s -> In TwAEnd (tw_applied s) ->
-  tw_cpc s = TwCDone /\ tw_final s = true /\ abs (tw_q s) = [] /\ tw_held s = None /\
+  tw_cpc s = TwCDone /\ tw_final s = true /\ mrb_abs (tw_q s) = [] /\ tw_held s = None /\
   tw_msgs_of (tw_applied s) = tw_acc_msgs s /\
   exists l, tw_applied s = l ++ [TwAEnd] /\ ~ In TwAEnd l.
 Proof. exact tw_close_post. Qed.
 Print Assumptions C06_file_refines_sync.
+
+(* rejected_leaves_no_trace: a send call (user_data / fsr / omit / annotation / utc; index idx of producer i) that
+   returned an error has no message in the accepted list - hence, by fifo_inv, none in the queue and none
+   handed to the writer; a call that returned 0 has exactly one accepted message, with exactly its bytes.
+   0 and JLS_ERROR_BUSY are the only return codes of these calls. *)
+Theorem C06_rejected_leaves_no_trace :
+  forall (fx : bool) (cap : N) (progs : list (list tw_call)) (s : tw_state) (i idx : nat)
+         (k : tw_mkind) (body : list N) (rc : option N),
+  tw_wf cap progs -> tw_wf_close progs -> tw_reach fx cap progs s ->
+  In (TwEvRet (TwTProd i) idx (TwCSend k body) rc) (tw_trace s) ->
+  (rc = Some 0 /\ tw_msgs_with_id i idx (tw_accepted s) = [tw_user_msg k body]) \/
+  (rc = Some tw_EBUSY /\ tw_msgs_with_id i idx (tw_accepted s) = []).
+Proof. exact tw_rejected_leaves_no_trace. Qed.
+Print Assumptions C06_rejected_leaves_no_trace.
+
+Example C06_rejected_hyps :
+  exists (s : tw_state) (i idx : nat) (k : tw_mkind) (body : list N),
+  tw_wf 128 tw_ex_prog /\ tw_wf_close tw_ex_prog /\ tw_reach false 128 tw_ex_prog s /\
+  In (TwEvRet (TwTProd i) idx (TwCSend k body) (Some 0)) (tw_trace s).
+Proof. exact tw_ex_ret. Qed.
+Print Assumptions C06_rejected_hyps.
 
 (* the hypotheses are satisfiable: a complete run of two producers (flush, user data, close | omit) *)
 Example C06_example_run :
